@@ -743,3 +743,13 @@ def r2c(cx):
 
 # --- explanation addendum (generated catalogue in DESIGN.md reads RS.explanation)
 RS.explanation += ' Added later: when components remain the search always descends (R2b); the existence test of a literal component does not follow a final symbolic link, like the directory scan (R2c).'
+
+
+# shared with C19 (the simulated kernel pathname expansion is tested against): a literal component followed by `..` exists only if
+# the tree resolution finds it - `nx/../[ab]` must stay unexpanded when `nx` does not exist
+from rules.C19 import r16 as _c19_dotdot_resolved_in_tree
+from engine import Rule
+RS.rules.append(Rule('C05.R6', 'K-TAINT', 'the existence tests of pathname expansion (fstatat / opendir of the simulated kernel) resolve `..` '
+                     'against the directory tree: no lexically shortened pathname reaches FileSystem::get, so `nx/../*` yields no '
+                     'non-existing pathnames (C19.R16)', _c19_dotdot_resolved_in_tree))
+RS.explanation += ' Added in wave 3: the simulated kernel behind fstatat/opendir resolves `..` in the directory tree, never lexically (R6 = C19.R16).'
